@@ -110,6 +110,13 @@ def check_c19(idx: Index, tier: str, res: Result) -> None:
     for name in ("compress_settings", "compress_results"):
         fi = idx.func(COMPRESS, name)
         inp = params(fi.node)[0]
+        # what is written for a session is a function of that session's log alone: a compressor that is also handed something kept from an
+        # earlier save (columns to extend, a number of steps to skip) writes a mix of two histories as soon as the log was restarted
+        extra_ps = params(fi.node)[1:]
+        res.check("PURE", "%s(log) is a function of the log alone" % name, not extra_ps, fi.loc(), fi.qual, "def %s(%s)" % (name, ", ".join(params(fi.node))),
+                  "%s also takes %s: what it emits depends on what an earlier call left there, not only on the log that is being saved - after a "
+                  "session is begun again on the same instance the stored history is part old session, part new" % (name, ", ".join(extra_ps)),
+                  key="PURE/%s/extra-input" % name)
         def base_iter(e: ast.AST):
             """strip order-changing / order-keeping wrappers: returns (base expression, [wrapper calls])"""
             wr = []
@@ -203,6 +210,23 @@ def check_c19(idx: Index, tier: str, res: Result) -> None:
     # the compression round trip builds one entry per scenario: no table of shared entries (fromkeys with a mutable value)
     from ..util import fromkeys_sweep
     fromkeys_sweep(idx, res, "SHAPE", ["BPTK_Py/util/statecompression.py", "BPTK_Py/externalstateadapter/", "BPTK_Py/server/"])
+    # the compressed format is positional (the k-th value of a column belongs to the k-th step): whatever walks the steps does so in
+    # numeric order.  Sorting by the step *label* - a string such as "10.0" - puts step 10 before step 2.
+    nsort = 0
+    for q_, f_ in idx.module(COMPRESS).functions.items():
+        for c_ in iter_calls(f_.node):
+            is_sort = (isinstance(c_.func, ast.Name) and c_.func.id == "sorted") or (isinstance(c_.func, ast.Attribute) and c_.func.attr == "sort")
+            if not is_sort:
+                continue
+            nsort += 1
+            key = next((k.value for k in c_.keywords if k.arg == "key"), None)
+            numeric = key is not None and any(isinstance(x, ast.Call) and call_name(x) in ("float", "int") for x in ast.walk(key)) \
+                or (isinstance(key, ast.Name) and key.id in ("float", "int"))
+            res.check("ORDER", "%s orders steps numerically" % q_, bool(numeric), f_.loc(c_), q_, src(c_)[:90],
+                      "%s sorts by %s: the step labels are strings ('1.0', '2.0', ... '10.0'), so from the tenth step on the rebuilt logs are in the "
+                      "order 1, 10, 11, 2, ... - and because the compressed form is positional the next save files every value under the wrong step"
+                      % (q_, src(key)[:40] if key is not None else "the natural order of the cells"), key="ORDER/%s/sorted-by-label" % q_)
+    res.ob("ORDER", "sort calls in the compression module: %d" % nsort, True, nontrivial=False)
     # the restore installs what was saved: bptk._set_state changes nothing but the lock default
     sst = idx.func(BPTK, "bptk._set_state")
     sp = params(sst.node)[1] if len(params(sst.node)) > 1 else "state"
@@ -363,6 +387,59 @@ def check_c19(idx: Index, tier: str, res: Result) -> None:
                  "process, so overlapping saves of two instances write one instance's file with the other's state" % (fi_.qual, tname, nested_))
 
 
+def loaded_state_is_fresh(idx: Index, res: Result, rule: str) -> int:
+    """OWNSTATE: the session state an adapter hands back for an instance is an object decoded for that load (jsonpickle.loads / json.loads
+    / a deep copy) and kept nowhere else.  _set_state installs it as the *live* session_state: a state that also sits in a table of the
+    adapter (a decode cache keyed by the file's text, a 'last loaded' slot) is one dict shared by every instance whose file has that
+    text - a step of one restored instance advances the others."""
+    n = 0
+    m = idx.module(ADAPTER)
+    isc = m.classes.get("InstanceState")
+    fields = [st.target.id for st in isc.node.body if isinstance(st, ast.AnnAssign) and isinstance(st.target, ast.Name)] if isc is not None else ["state"]
+    for cname, ci in m.classes.items():
+        if "_load_instance" not in ci.methods:
+            continue
+        ld = ci.methods["_load_instance"][-1]
+        if any(isinstance(d, ast.Name) and d.id == "abstractmethod" for d in ld.node.decorator_list):
+            continue
+        for c in iter_calls(ld.node):
+            if call_name(c) != "InstanceState":
+                continue
+            sv_ = next((k.value for k in c.keywords if k.arg == "state"), None)
+            if sv_ is None and "state" in fields and len(c.args) > fields.index("state"):
+                sv_ = c.args[fields.index("state")]
+            if sv_ is None:
+                continue
+            n += 1
+            # every way the value is bound, through plain copies of names
+            todo, seen_, sources, kept = [sv_], set(), [], []
+            while todo:
+                e = todo.pop()
+                if isinstance(e, ast.Name):
+                    if e.id in seen_:
+                        continue
+                    seen_.add(e.id)
+                    for a in walk_no_nested(ld.node):
+                        if isinstance(a, ast.Assign):
+                            if any(isinstance(t, ast.Name) and t.id == e.id for t in a.targets):
+                                todo.append(a.value)
+                            if isinstance(a.value, ast.Name) and a.value.id == e.id and any(
+                                    isinstance(t, (ast.Subscript, ast.Attribute)) and (dotted(t.value if isinstance(t, ast.Subscript) else t) or "").startswith("self.") for t in a.targets):
+                                kept.append(a)
+                else:
+                    sources.append(e)
+            shared = [e for e in sources if not (isinstance(e, ast.Call) and call_name(e) in ("loads", "load", "deepcopy", "decode", "decompress_settings", "decompress_results"))
+                      and any(isinstance(x, ast.Attribute) and isinstance(x.value, ast.Name) and x.value.id == "self" for x in ast.walk(e))]
+            bad = kept or shared
+            res.check(rule, "%s._load_instance hands back a state decoded for this load and kept nowhere else" % cname, not bad, ld.loc((kept or shared)[0]) if bad else ld.loc(c),
+                      ld.qual, norm_stmt(kept[0])[:90] if kept else (src(shared[0])[:90] if shared else src(sv_)[:60]),
+                      "%s._load_instance %s: the state it hands back is installed as the live session state of the instance, so two instances whose "
+                      "files decode through the same entry share one dict - a step on one moves the other"
+                      % (cname, ("also keeps the decoded state in %s" % src(kept[0].targets[0])[:40]) if kept else ("takes the state from %s" % (src(shared[0])[:50] if shared else ""))),
+                      key="%s/%s._load_instance/shared-decoded-state" % (rule, cname))
+    return n
+
+
 def check_c20(idx: Index, tier: str, res: Result) -> None:
     res.explanation = ("(1) the state file is replaced atomically (temp file + os.replace); (2) a None from _load_instance (damaged file) is "
                        "filtered before every consumer - contradiction rule: load_state checks, the constructor and /load-state "
@@ -371,6 +448,9 @@ def check_c20(idx: Index, tier: str, res: Result) -> None:
     res.rules = ["ATOMIC: write-then-rename shape of _save_instance; the writer truncates", "PERSIST: every path from run_step() to a response passes save_instance()", "NULL: None-producers vs dereferencing consumers",
                  "REPLAY: call-graph reachability from the restore path to settings application", "THREADEXC: handler coverage in thread targets"]
     res.not_decided = ["equality of the continued values (numeric)", "crash timing inside the interpreter / OS buffering"]
+    loaded_state_is_fresh(idx, res, "OWNSTATE")
+    from .server import instance_records_rule
+    instance_records_rule(idx, res, "OWNSTATE")          # ... and a bptk object of its own
     # ---- (1) atomic replace -----------------------------------------------------------------------------------------
     sv = idx.func(ADAPTER, "FileAdapter._save_instance")
     opens = [c for c in iter_calls(sv.node) if call_name(c) == "open"]
